@@ -76,6 +76,7 @@ func opAmount(_ *HState, a Event) Event {
 		case "RoundTrip":
 			v := gI64(a, "a")
 			f := bchutil.Amount(v).ToBCH()
+			e["r"] = fdec(f) // ToBCH is a conversion of its own: the correctly rounded quotient, like ToUnit(BCH)
 			r, _ := bchutil.NewAmount(f)
 			e["back"] = idec(int64(r))
 		case "Format":
@@ -185,6 +186,17 @@ func runC17(c *Ctx) {
 				c.Call(Event{"op": "Format", "a": idec(x), "u": u})
 			}
 		}
+	}
+	// ToBCH on amounts between 1 and 100 000 BCH (a conversion assembled from whole coins + remainder is one ulp off there)
+	for k := 0; k < c.Pick(1500, 30000); k++ {
+		v := 100000000 + r.Int63n(9900000000)
+		if k%5 == 0 {
+			v = 10000000000 + r.Int63n(9990000000000)
+		}
+		if k%2 == 0 {
+			v = -v
+		}
+		c.Call(Event{"op": "RoundTrip", "a": idec(v)})
 	}
 	// every exponent -12..12 (and a few outside) for a handful of amounts: unit labels and scaling
 	for u := -14; u <= 14; u++ {
